@@ -68,7 +68,7 @@ class Run:
         s.src = Source(s.repo)
         s.obls, s.functions, s.assumed, s.bounded_log, s.notes = [], {}, set(), [], []
         s.t0 = time.time()
-        s.timeout = 20 if s.tier == "quick" else 300
+        s.timeout = 40 if s.tier == "quick" else 300
         s.level = "proof"
         s.extra_cov = {}
         s.bounded_failures = []       # [(name, replay dict)]
@@ -253,6 +253,13 @@ class Run:
             print(f"CHECKER-FAULT property={s.pid} duplicate obligation names: {sorted(dups)[:5]}")
             return 3
         solve.discharge(s.obls, s.timeout)
+        if s.tier == "thorough":
+            # second solver: every obligation z3 proved is decided again by cvc5; a `sat` there is a checker fault (the trusted base disagrees)
+            s.extra_cov["second_solver_cvc5"] = cc = solve.cross_check(s.obls)
+            if cc["disagree"]:
+                print(f"CHECKER-FAULT property={s.pid} z3 and cvc5 disagree on {len(cc['disagree'])} obligation(s): {cc['disagree'][:3]}")
+                s._write_evidence([], [], [], [])
+                return 3
         kf = s.known_findings()
         kf_open = [f for f in kf if f.get("status") == "known"]
         violations, undecided, faults, kf_hit = [], [], [], []
